@@ -48,7 +48,7 @@ def configs(tier):
                 for sx, sy in ((1, 1), (2, 1), (3, 2)):
                     n = sx * sy
                     minimum = n if profile == 0 else 4 * n
-                    pbs = list(range(max(1, minimum - 2), minimum + span + 1)) + [n * 300, n * 600 + 1, n * 1000 + 3]
+                    pbs = list(range(max(1, minimum - 2), minimum + span + 1)) + [n * 300, n * 600 + 1, n * 1000 + 3] + ([n * (4 + L) + d for L in (255, 256, 510, 511, 512) for d in (0, 1)] if profile == 3 else [])
                     for pb in pbs:
                         variants = [("noise", 0, 1), ("grey", 0, 1), ("checker", 0, 1), ("noise", 5, 1), ("noise", 40, 1)]
                         if profile == 3:
